@@ -106,13 +106,20 @@ def gen_docs(tier, seed, tmpl):
                     if v2 != v:
                         docs.append((None, json.dumps(dict(t, **{m: v2})).encode()))
                         docs.append((None, json.dumps({"keys": [dict(tmpl[0], kid="first"), dict(t, **{m: v2}, kid="pad"), dict(tmpl[0], kid="last")]}).encode()))
+    # file-based entry points: documents whose size is exactly / one off a read-buffer multiple (blank padded, still valid JSON)
+    for size in (511, 512, 513, 1023, 1024, 1025, 4095, 4096, 4097, 8191, 8192, 8193, 16384, 65535, 65536, 65537):
+        base = json.dumps({"keys": [dict(tmpl[0], kid="blk-a"), dict(tmpl[-1], kid="blk-b")]}).encode()
+        if len(base) < size:
+            for e in (5, 6, 7, 8, 13, 2):
+                docs.append((e, base + b" " * (size - len(base))))
+                docs.append((e, b" " * (size - len(base)) + base))
     # 4. documents that are JSON but not objects, non-JSON text, random bytes, truncations
     for t in [b"", b" ", b"null", b"1", b"\"str\"", b"[]", b"[{\"kty\":\"oct\",\"k\":\"AAAA\"}]", b"{", b"}", b"{\"kty\":\"oct\",\"k\":\"AAAA\"}x",
               b"{\"kty\":\"oct\",\"k\":\"AAAA\"} ", b"\xef\xbb\xbf{}", b"{'kty':'oct'}", b"{\"kty\":\"oct\",}", b"NaN", b"{\"a\":NaN}", b"{\"a\":1e400}",
               b"{\"a\":123456789012345678901234567890}", b"{\"kty\":\"oct\",\"k\":\"AA\\u0000AA\"}", b"{\"kty\":\"o\\u0000ct\"}", b"{\"kty\":\"\\ud800\"}",
               b"{\"kty\":\"oct\",\"k\":\"AAAA\",\"kty\":\"RSA\"}", b"{\"kty\":\"oct\"\x00,\"k\":\"AAAA\"}", b"{\"kty\":\"oct\",\"k\":\"AAAA\"}\x00garbage",
               b"{\"kty\":\"\xff\"}", b"\x00", b"[" * 3000 + b"]" * 3000, b"{\"keys\":" + b"[" * 100 + b"]" * 100 + b"}"]:
-        for e in range(11):
+        for e in range(15):
             docs.append((e, t))
     nrand = 20000 if tier == "thorough" else 1500
     good = [json.dumps(t).encode() for t in tmpl]
@@ -294,7 +301,7 @@ def run(tier, seed, replay):
     rep = vf.Report("C07", tier, seed)
     rep.rule = ("exhaustive single-fault matrix (every key template x 17 members x 16 substitutes), sampled fault pairs, key sets mixing "
                 "good/bad elements with 'keys' of every JSON type, non-JSON text, byte-mutated and truncated JWKs, random bytes; each "
-                "through the 9 load/create entry points; plus libFuzzer with a JWK dictionary. distinct = distinct (document shape, "
+                "through the load/create entry points (string, length-limited, file, FILE*, unreadable path, directory, FILE* positioned mid-file / at EOF); plus libFuzzer with a JWK dictionary. distinct = distinct (document shape, "
                 "element type, element kty, item error?) and (notjson, entry point, outcome) tuples")
     rep.assumptions = ["Python json is the reference reader; NaN/Infinity literals, integers beyond int64, float overflow, escaped NUL, lone "
                        "surrogates and nesting deeper than 400 are ambiguous and unjudged; a 'keys' member that is not an array is unjudged",
@@ -358,6 +365,6 @@ def run(tier, seed, replay):
     vf.need(rep, c.get("items_good", 0) > 200, "too few usable keys imported (positive control)")
     vf.need(rep, c.get("items_error", 0) > 200, "too few bad items observed")
     vf.need(rep, c.get("notjson", 0) > 100, "too few non-JSON documents")
-    for e in range(11):
+    for e in range(15):
         vf.need(rep, c.get("entry.%d" % e, 0) > 20, "entry point %d hardly exercised" % e)
     return rep
